@@ -65,6 +65,15 @@ def check(ctx):
     srcs += [("sv", soup(r)) for _ in range(150 if q else 4000)] + [("lib", soup(r)) for _ in range(30 if q else 800)]
     for k, s in r.sample(pool, 40 if q else 600):
         srcs.append((k, mutate(r, s)))
+    # the spec snippets as they are (Locate::try_from, get_str, Display of EVERY node): all of them when the regenerated
+    # grammar differs from the validated one, a sample otherwise
+    try:
+        import svx_grammar
+        changed = svx_grammar.main().get("hash") != json.load(open(os.path.join(VERIF, "corpus", "C02-shapes.json"))).get("grammar_hash")
+    except Exception:
+        changed = True
+    ctx.cov["grammar_changed_since_validation"] = changed
+    srcs += pool if (changed or not q) else r.sample(pool, 60)
     for _ in range(20 if q else 400):
         g = ppgen.Gen(r, includes=False)
         srcs.append(("sv", mutate(r, ppgen.render(g.program())["top.sv"])))
